@@ -97,12 +97,45 @@ def handlePair (kind : String) (l : List Bytes) (p1 e1 p2 e2 : Bytes) : String :
     | some true => showBool (pathCase l p1 e1) ++ " " ++ showBool (pathCase l p2 e2)
     | _ => "bad-op"
 
+/-- bytes that can stand in a CEL single-quoted string literal unchanged -/
+def celSafe (s : Bytes) : Bool :=
+  s.all fun c => decide (32 ≤ c) && decide (c < 127) && c != 39 && c != 92 && c != 34
+
+/-- the same matchers reached through other front doors of the real code: a CEL `expression`
+    (`host(…)`, `path(…)`, `path_regexp(…)`: the CEL library wrappers build and provision the
+    very same matcher types) and JSON-configured matcher sets loaded by `Route.ProvisionMatchers`.
+    The model is the same function; the extra domain rule is that CEL needs a non-empty list of
+    literal-safe strings. -/
+def handleVia : List String → String
+  | ["cel-host", entries, rhost] =>
+    match parseList entries with
+    | some l => if l.isEmpty || !l.all celSafe then "ood" else handleSingle ["host", entries, rhost]
+    | none => "bad-op"
+  | ["cel-path", pats, p, e] =>
+    match parseList pats with
+    | some l => if l.isEmpty || !l.all celSafe then "ood" else handleSingle ["path", pats, p, e]
+    | none => "bad-op"
+  | ["cel-pathre", kind, lit, p] => handleSingle ["pathre", kind, lit, p]
+  | ["json-host", entries, rhost] => handleSingle ["host", entries, rhost]
+  | ["json-path", pats, p, e] => handleSingle ["path", pats, p, e]
+  | ["json-pathre", kind, lit, p] => handleSingle ["pathre", kind, lit, p]
+  | ["json-set", entries, pats, rhost, p, e] =>
+    match parseList entries, parseList pats, Hex.decode rhost, Hex.decode p, Hex.decode e with
+    | some l, some ps, some h, some p, some e =>
+      if !(inDomainHost l h && inDomainPath ps p e) then "ood"
+      else if !escConsistent p e then "bad-op"
+      else match setCase largeThreshold l ps h p e with
+        | .dup => "err:dup"
+        | .res b => showBool b
+    | _, _, _, _, _ => "bad-op"
+  | other => handleSingle other
+
 def handle : List String → String
   | ["pathpair", kind, pats, p1, e1, p2, e2] =>
     match parseList pats, Hex.decode p1, Hex.decode e1, Hex.decode p2, Hex.decode e2 with
     | some l, some p1, some e1, some p2, some e2 => handlePair kind l p1 e1 p2 e2
     | _, _, _, _, _ => "bad-op"
-  | other => handleSingle other
+  | other => handleVia other
 
 /-! ### the counter-examples proved in `Witness.lean` -/
 
